@@ -33,6 +33,11 @@ pub mod trackers;
 ///
 pub mod utils;
 
+/// Verification facade: controlled-scheduler primitives and schedule points
+///
+#[cfg(similari_verif)]
+pub mod verif;
+
 pub use track::store;
 pub use track::voting;
 
